@@ -746,6 +746,12 @@ struct TemplateCore {
                 }
 
                 case TagPatterns::LoopID: {
+                    if (is_child) {
+                        // Inside an inline tag only inline tags are sub tags: '<loop' is text there.
+                        finder.Next();
+                        break;
+                    }
+
                     SizeT       offset      = finder.GetOffset();
                     const SizeT loop_offset = (offset - TagPatterns::LoopPrefixLength);
 
@@ -802,6 +808,12 @@ struct TemplateCore {
                 }
 
                 case TagPatterns::IfID: {
+                    if (is_child) {
+                        // Inside an inline tag only inline tags are sub tags: '<if' is text there.
+                        finder.Next();
+                        break;
+                    }
+
                     SizeT       offset    = finder.GetOffset();
                     const SizeT if_offset = (offset - TagPatterns::IfPrefixLength);
                     SizeT       case_offset{0};
